@@ -3060,14 +3060,14 @@ macro_rules! mat_impl_mat4 {
             }
         }
 
-        /// A `Mat4` can be obtained from a `Transform`, by rotating, then scaling, then
-        /// translating.
+        /// A `Mat4` can be obtained from a `Transform`, by scaling, then rotating, then
+        /// translating (i.e `Mat4::scaling_3d(scale)`, rotated by `orientation`, then translated by `position`).
         impl<T> From<Transform<T,T,T>> for Mat4<T>
             where T: Real + MulAdd<T,T,Output=T>
         {
             fn from(xform: Transform<T,T,T>) -> Self {
                 let Transform { position, orientation, scale } = xform;
-                Mat4::from(orientation).scaled_3d(scale).translated_3d(position)
+                (Mat4::from(orientation) * Mat4::scaling_3d(scale)).translated_3d(position)
             }
         }
 
